@@ -1,5 +1,6 @@
 import TabulaModel.Util
 import TabulaModel.Model.Package
+import TabulaModel.Model.PackageApi
 /-!
 Line protocol of C18.
 
@@ -17,7 +18,24 @@ Line protocol of C18.
   reply: `err` or `ok` followed by one field per presented part:
     xlsx `<Sheet.Index>:<cid>:<hexname>`  pptx `<Slide.Index>:<cid>`
     epub `<Chapter.Index>:<cid>:<hex Href>:<hex ID>`
+    `T,<Id>.<Type>.<Target>,…`  relationships with their types (slide relationship parts)
+    `N`                     notes slide
 `c18.href <hexbase> <hexhref>` → hex of `resolveHref`.
+`c18.pptxn a=… x=…` → `err` or `ok` + per slide `<Slide.Index>:<cid>:<notes cid|->`
+  (pptx.Open with parseSlideRelationships / parseSlideNotes).
+`c18.api <fmt> a=… x=… m=<cid>=<hex first bytes of a member named mimetype>;… <tables> q=<call>;<call>…` — one opened reader, a history of
+  calls; reply `err` (Open fails) or `ok` + one field per call.
+  tables  xlsx: `g=<cid>=<grid>;…`  grid = rows joined by `,`, row = `r`+cells joined by
+                `.`, cell = `<hexvalue>:<2*merged+root>`
+          pptx: `g=<cid>=<title>/<blocks>/<tables>;…` `n=<cid>=<hex notes text>;…`
+                block = `b<isTitle>.<hex placeholder>.<para>.<para>…` joined by `|`,
+                para = `<hextext>:<level>:<2*bullet+numbered>`, table = `t`+rows joined
+                by `,`, row = `r`+hex cells joined by `.`; tables joined by `|`
+          epub: `h=<cid>.<mode>=<hex text|!>,<hex markdown|!>;…` `p=<cid>=<pages|!>;…`
+  calls   `C` count  `N` SheetNames  `S,<i>` Sheet/Slide  `B,<hexname>` SheetByName
+          `L` Chapters  `T,<sel>,…` TextWithOptions  `M,<sel>,…` markdown  `D` Document
+          `FC` `FT,<eh><ef>,<pages>` `FD` the front door tabula.Open(f).PageCount/Text/Document
+          (selection: ints joined by `_`, `e` = empty; epub `T,<mode>` / `M,<mode>`)
 -/
 namespace Tabula.C18H
 open Tabula Tabula.Package
@@ -32,6 +50,11 @@ def parsePair (s : String) : Option (Str × Str) :=
   | [a, b] => do pure (← unhexS a, ← unhexS b)
   | _ => none
 
+def parseTriple (s : String) : Option (Str × Str × Str) :=
+  match s.splitOn "." with
+  | [a, b, c] => do pure (← unhexS a, ← unhexS b, ← unhexS c)
+  | _ => none
+
 def parseSpec (s : String) : Option Doc :=
   match s.splitOn "/" with
   | [one] =>
@@ -39,6 +62,8 @@ def parseSpec (s : String) : Option Doc :=
     | ["S"] => some .sheet
     | ["L"] => some .slide
     | ["B"] => some .bad
+    | ["N"] => some .notes
+    | "T" :: ps => (ps.mapM parseTriple).map .relsT
     | ["P"] => some (.presentation none)
     | "W" :: ps => (ps.mapM parsePair).map .workbook
     | "R" :: ps => (ps.mapM parsePair).map .rels
@@ -72,8 +97,236 @@ def parseArchive (s : String) : Option Archive :=
 def parseDocs (s : String) : Option Docs :=
   if s == "" then some (docsOf []) else ((s.splitOn ";").mapM parseDocEntry).map docsOf
 
+/-! ### op c18.api -/
+open Tabula.PackageApi
+
+def parseTable {β : Type} (s : String) (f : String → Option β) : Option (List (String × β)) :=
+  if s == "" then some [] else
+  (s.splitOn ";").mapM fun e =>
+    match e.splitOn "=" with
+    | [k, v] => (f v).map fun b => (k, b)
+    | _ => none
+
+def tblGet {β : Type} (tbl : List (String × β)) (k : String) (dflt : β) : β :=
+  match tbl.find? (·.1 == k) with
+  | some e => e.2
+  | none => dflt
+
+def parseSel (s : String) : Option (List Int) :=
+  if s == "e" then some [] else (s.splitOn "_").mapM String.toInt?
+
+def parseFlag (s : String) (i : Nat) : Bool := (s.toList.drop i).head? == some '1'
+
+def parseCell (s : String) : Option Cell :=
+  match s.splitOn ":" with
+  | [v, f] => do
+    let v ← unhexS v
+    let f ← f.toNat?
+    pure ⟨v, f / 2 % 2 == 1, f % 2 == 1⟩
+  | _ => none
+
+/-- `r` + items joined by `.` -/
+def parseTagged {β : Type} (tag : Char) (sep : String) (f : String → Option β) (s : String) : Option (List β) :=
+  match s.toList with
+  | c :: rest =>
+    if c == tag then
+      (if rest.isEmpty then some [] else ((String.ofList rest).splitOn sep).mapM f)
+    else none
+  | [] => none
+
+def parseGrid (s : String) : Option Grid :=
+  if s == "" then some [] else (s.splitOn ",").mapM (parseTagged 'r' "." parseCell)
+
+def parsePara (s : String) : Option Para :=
+  match s.splitOn ":" with
+  | [t, l, f] => do
+    let t ← unhexS t
+    let l ← l.toNat?
+    let f ← f.toNat?
+    pure ⟨t, l, f / 2 % 2 == 1, f % 2 == 1⟩
+  | _ => none
+
+def parseBlock (s : String) : Option Block :=
+  match s.splitOn "." with
+  | hd :: ph :: paras => do
+    let isT ← (if hd == "b1" then some true else if hd == "b0" then some false else none)
+    let ph ← unhexS ph
+    let ps ← paras.mapM parsePara
+    pure ⟨isT, ph, ps⟩
+  | _ => none
+
+def parseList {β : Type} (sep : String) (f : String → Option β) (s : String) : Option (List β) :=
+  if s == "" then some [] else (s.splitOn sep).mapM f
+
+def parseSlideBody (s : String) : Option SlideBody :=
+  match s.splitOn "/" with
+  | [t, bs, ts] => do
+    let t ← unhexS t
+    let bs ← parseList "|" parseBlock bs
+    let ts ← parseList "|" (parseTagged 't' "," (parseTagged 'r' "." unhexS)) ts
+    pure ⟨t, bs, ts⟩
+  | _ => none
+
+def parseOptHex (s : String) : Option (Option Str) :=
+  if s == "!" then some none else (unhexS s).map some
+
+def parseView (s : String) : Option (Option Str × Option Str) :=
+  match s.splitOn "," with
+  | [t, m] => do pure (← parseOptHex t, ← parseOptHex m)
+  | _ => none
+
+def parseOptNat (s : String) : Option (Option Nat) :=
+  if s == "!" then some none else s.toNat?.map some
+
+def field (pre : String) (s : String) : Option String :=
+  if s.startsWith pre then some (s.drop pre.length).toString else none
+
+def joinC (l : List String) : String := ",".intercalate l
+
+def showSheet : Option Sheet → String
+  | none => "sheet=none"
+  | some s => s!"sheet={s.index}:{s.cid}:{hexS s.name}"
+
+def showOptNat : Option Nat → String
+  | none => "-"
+  | some n => toString n
+
+def showSlide : Option Slide → String
+  | none => "slide=none"
+  | some s => s!"slide={s.index}:{s.cid}:{showOptNat s.notesCid}"
+
+/-- front-door reply -/
+def showOpt (o : Option String) : String := o.getD "err"
+
+def xlsxCall (arch : Archive) (docs : Docs) (mime : Nat → Option Str) (grid : Nat → Grid) (r : XReader) (c : String) : Option String :=
+  let one (k : XCall) : String :=
+    match (xlsxStep r k).1 with
+    | .num n => s!"n={n}/{n}"
+    | .strs l => "names=" ++ joinC (l.map hexS)
+    | .sheet s => showSheet s
+    | .str s => "text=" ++ hexS s
+    | .parts l => "parts=" ++ joinC (l.map fun s => toString s.cid)
+    | .pages l => "pages=" ++ joinC (l.map fun p => s!"{p.number}:{p.cid}")
+  match c.splitOn "," with
+  | ["C"] => some (one .count)
+  | ["N"] => some (one .names)
+  | ["S", i] => i.toInt?.map fun i => one (.sheet i)
+  | ["B", n] => (unhexS n).map fun n => one (.byName n)
+  | ["T", sel, h, d] => do
+    let sel ← parseSel sel
+    let d ← unhexS d
+    pure (one (.text { sheets := sel, headers := h == "1", delim := d }))
+  | ["M", sel] => (parseSel sel).map fun sel => one (.markdown { sheets := sel })
+  | ["D"] => some (one .document)
+  | ["FC"] => some (showOpt ((openCountXlsx arch docs mime grid).map fun n => s!"n={n}"))
+  | ["FT", f, pg] => (parseSel pg).map fun pg =>
+    showOpt ((openTextXlsx arch docs mime grid { exHeaders := parseFlag f 0, exFooters := parseFlag f 1, pages := pg }).map
+      fun s => "text=" ++ hexS s)
+  | ["FD"] => some (showOpt ((openDocXlsx arch docs mime grid).map fun l =>
+      "pages=" ++ joinC (l.map fun p => s!"{p.number}:{p.cid}")))
+  | _ => none
+
+def pptxCall (arch : Archive) (docs : Docs) (mime : Nat → Option Str) (body : Nat → SlideBody) (nt : Nat → Str) (r : PReader) (c : String) :
+    Option String :=
+  let one (k : PCall) : String :=
+    match (pptxStep r k).1 with
+    | .num n => s!"n={n}/{n}"
+    | .slide s => showSlide s
+    | .str s => "text=" ++ hexS s
+    | .parts l => "parts=" ++ joinC (l.map fun s => toString s.cid)
+    | .pages l => "pages=" ++ joinC (l.map fun p => s!"{p.number}:{p.cid}")
+  let opts (sel : List Int) (f : String) : POpts :=
+    { slides := sel, notes := parseFlag f 0, titles := parseFlag f 1, exHeaders := parseFlag f 2, exFooters := parseFlag f 3 }
+  match c.splitOn "," with
+  | ["C"] => some (one .count)
+  | ["S", i] => i.toInt?.map fun i => one (.slide i)
+  | ["T", sel, f] => (parseSel sel).map fun sel => one (.text (opts sel f))
+  | ["M", sel, f] => (parseSel sel).map fun sel => one (.markdown (opts sel f))
+  | ["D"] => some (one .document)
+  | ["FC"] => some (showOpt ((openCountPptx arch docs mime body nt).map fun n => s!"n={n}"))
+  | ["FT", f, pg] => (parseSel pg).map fun pg =>
+    showOpt ((openTextPptx arch docs mime body nt { exHeaders := parseFlag f 0, exFooters := parseFlag f 1, pages := pg }).map
+      fun s => "text=" ++ hexS s)
+  | ["FD"] => some (showOpt ((openDocPptx arch docs mime body nt).map fun l =>
+      "pages=" ++ joinC (l.map fun p => s!"{p.number}:{p.cid}")))
+  | _ => none
+
+def showPages (l : List EPage) : String := "pages=" ++ joinC (l.map fun p => s!"{p.number}:{p.cid}")
+
+def epubCall (h : HtmlViews) (arch : Archive) (docs : Docs) (mime : Nat → Option Str) (r : EReader) (c : String) : Option String :=
+  let one (k : ECall) : String :=
+    match (epubStep h r k).1 with
+    | .num n => s!"n={n}/{n}"
+    | .chapters l => "ch=" ++ joinC (l.map fun c => s!"{c.index}:{c.cid}:{hexS c.href}:{hexS c.id}")
+    | .str s => "text=" ++ hexS s
+    | .pages l => showPages l
+  match c.splitOn "," with
+  | ["C"] => some (one .count)
+  | ["L"] => some (one .chapters)
+  | ["T", m] => m.toInt?.map fun m => one (.text m)
+  | ["M", m] => m.toInt?.map fun m => one (.markdown m)
+  | ["D"] => some (one .document)
+  | ["FC"] => some (showOpt ((openCountEpub arch docs mime).map fun n => s!"n={n}"))
+  | ["FT", f, pg] => (parseSel pg).map fun pg =>
+    showOpt ((openTextEpub h arch docs mime { exHeaders := parseFlag f 0, exFooters := parseFlag f 1, pages := pg }).map
+      fun s => "text=" ++ hexS s)
+  | ["FD"] => some (showOpt ((openDocEpub h arch docs mime).map showPages))
+  | _ => none
+
+def runCalls (q : String) (f : String → Option String) : String :=
+  match (parseList ";" f q) with
+  | some outs => " ".intercalate ("ok" :: outs)
+  | none => "bad-op"
+
+def handleApi (fmt : String) (rest : List String) : String :=
+  match rest with
+  | a :: x :: m :: more =>
+    match (field "a=" a).bind parseArchive, (field "x=" x).bind parseDocs, (field "m=" m).bind (parseTable · unhexS) with
+    | some arch, some docs, some mt =>
+      let mime : Nat → Option Str := fun c => (mt.find? (·.1 == toString c)).map (·.2)
+      match fmt, more with
+      | "xlsx", [g, q] =>
+        match (field "g=" g).bind (parseTable · parseGrid), field "q=" q with
+        | some gt, some q =>
+          let grid : Nat → Grid := fun c => tblGet gt (toString c) []
+          match xlsxReader arch docs grid with
+          | none => "err"
+          | some r => runCalls q (xlsxCall arch docs mime grid r)
+        | _, _ => "bad-op"
+      | "pptx", [g, n, q] =>
+        match (field "g=" g).bind (parseTable · parseSlideBody), (field "n=" n).bind (parseTable · unhexS), field "q=" q with
+        | some gt, some ntab, some q =>
+          let body : Nat → SlideBody := fun c => tblGet gt (toString c) ⟨[], [], []⟩
+          let nt : Nat → Str := fun c => tblGet ntab (toString c) []
+          match pptxReader arch docs body nt with
+          | none => "err"
+          | some r => runCalls q (pptxCall arch docs mime body nt r)
+        | _, _, _ => "bad-op"
+      | "epub", [h, p, q] =>
+        match (field "h=" h).bind (parseTable · parseView), (field "p=" p).bind (parseTable · parseOptNat), field "q=" q with
+        | some ht, some pt, some q =>
+          let views : HtmlViews :=
+            { text := fun c m => (tblGet ht s!"{c}.{m}" (none, none)).1
+              md := fun c m => (tblGet ht s!"{c}.{m}" (none, none)).2
+              pages := fun c => tblGet pt (toString c) none }
+          match epubReader arch docs with
+          | none => "err"
+          | some r => runCalls q (epubCall views arch docs mime r)
+        | _, _, _ => "bad-op"
+      | _, _ => "bad-op"
+    | _, _, _ => "bad-op"
+  | _ => "bad-op"
+
 def handle (op : String) (args : List String) : String :=
   match op, args with
+  | "c18.api", fmt :: rest => handleApi fmt rest
+  | "c18.pptxn", [a, x] =>
+    match (field "a=" a).bind parseArchive, (field "x=" x).bind parseDocs with
+    | some arch, some docs =>
+      match pptxOpenN arch docs with
+      | none => "err"
+      | some ps => " ".intercalate ("ok" :: ps.map fun (i, c, n) => s!"{i}:{c}:{showOptNat n}")
+    | _, _ => "bad-op"
   | "c18.href", [b, h] =>
     match unhexS b, unhexS h with
     | some b, some h => hexS (resolveHref b h)
